@@ -84,6 +84,12 @@ def evaluate(chk, cases, component, spec=True, spec_status_only=False, count=Tru
     for c in cases:
         if c.get("kind", "cut") == "cut" and "sw" not in c and "wf" not in c and "rf" not in c and chk.rng.random() < 0.33:
             c["sw"] = chk.rng.randint(1, 3)
+        # … and a third read through a reader that hands the input over in pieces of 1-5 bytes (every engine reads through BufRead; the
+        # model of the engines other than -M does not look at the segmentation at all)
+        if (c.get("kind", "cut") == "cut" and "seg" not in c and "rf" not in c and not c.get("M") and c.get("eng") != "stream"
+                and chk.rng.random() < 0.33):
+            c["seg"] = [chk.rng.randint(1, 5) for _ in range(chk.rng.randint(1, 4))]
+            c["cyc"] = True
     lines = [case_line(c) for c in cases]
     impl = run_impl(lines)
     model = run_model(lines)
